@@ -98,7 +98,8 @@ pub fn check(c: &Case, acc: &mut Acc) -> Check {
         names.sort();
         names.windows(2).any(|w| w[0].eq_ignore_ascii_case(w[1]))
     };
-    let nontrivial = c.malformed > 0 || repeated || !is_get_head;
+    let many = c.req.first("range").map_or(false, |r| r.iter().filter(|b| **b == b',').count() >= 8);
+    let nontrivial = c.malformed > 0 || repeated || !is_get_head || many;
     acc.note(&format!("status-{st}"), nontrivial, fingerprint(c), || {
         json!({"entity_len": c.ent.len, "etag": c.ent.etag, "mtime": c.ent.mtime, "request": c.req, "status": st, "malformed_values": c.malformed})
     });
@@ -225,10 +226,58 @@ pub fn case_strategy() -> BoxedStrategy<Case> {
         .boxed()
 }
 
+/// Requests with very many range specs (a multipart answer with dozens of parts, or a long list
+/// of unsatisfiable / duplicate specs), optionally with a matching If-Range.
+fn many_ranges_strategy() -> BoxedStrategy<Case> {
+    (
+        proptest::sample::select(&[3_000u64, 100_000, 10_000_000, 1 << 40, u64::MAX][..]),
+        prop_oneof![9usize..=40, 41usize..=130, 131usize..=400],
+        any::<u64>(),
+        0u8..4,
+        any::<bool>(),
+    )
+        .prop_map(|(len, n, salt, mode, head)| {
+            let mut v = String::from("bytes=");
+            let mut s = salt;
+            for i in 0..n {
+                s = crate::util::splitmix64(s);
+                if i > 0 {
+                    v.push_str(if s & 1 == 0 { "," } else { ", " });
+                }
+                let a = (s >> 8) % len;
+                let w = (s >> 40) % 5;
+                match (mode, s % 7) {
+                    (1, 0) => v.push_str(&format!("{}-", len)),      // unsatisfiable in between
+                    (2, _) => v.push_str(&format!("{a}-{a}")),         // one-byte parts
+                    (_, 1) => v.push_str(&format!("-{}", w + 1)),
+                    _ => v.push_str(&format!("{a}-{}", a.saturating_add(w))),
+                }
+            }
+            let etag = reqgen::quote(b"many", false);
+            let mut req = ReqSpec {
+                method: if head { "HEAD".into() } else { "GET".into() },
+                headers: vec![("range".into(), Bs(v.into_bytes()))],
+            };
+            if mode == 3 {
+                req.headers.push(("if-range".into(), etag.clone()));
+            }
+            Case {
+                ent: EntitySpec {
+                    etag: Some(etag),
+                    ..EntitySpec::simple(len)
+                },
+                req,
+                malformed: 0,
+            }
+        })
+        .boxed()
+}
+
 pub fn run(cx: &Cx) -> Acc {
     let mut acc = Acc::new();
     let n = cx.tier.pick(1u64, 12u64);
     acc.merge(par_proptest(cx, "random", 400_000 * n, case_strategy, |c, acc| check(c, acc)));
+    acc.merge(par_proptest(cx, "many-ranges", 6_000 * n, many_ranges_strategy, |c, acc| check(c, acc)));
     acc
 }
 
